@@ -3,7 +3,7 @@
 # its own scratch worktree of /repo (tools/seed_check_alt.sh) so that N seeds run side by side and /repo is never touched.
 cd /verif
 J=3; [ "$1" = "-j" ] && { J=$2; shift 2; }
-OUT=seeded/RESULTS.md
+OUT=${OUT:-seeded/RESULTS.md}
 seeds=${@:-$(ls seeded | grep -E '^C[0-9]+-[0-9]+$' | sort -V)}
 T=$(mktemp -d /tmp/regress.XXXXXX)
 mkdir -p .build/alt-root; cp known_findings.json .build/alt-root/
